@@ -61,14 +61,22 @@ Check C18_walk_deterministic : forall all frags seen l out1 s1 out2 s2,
   XiDfs all frags seen l out1 s1 -> XiDfs all frags seen l out2 s2 -> out1 = out2 /\ s1 = s2.
 Print Assumptions C18_walk_deterministic.
 
-(* what the walk yields is reachable (through sub-selections when all = true, inline fragments and
-   defined fragment spreads) *)
-Theorem C18_visited_are_reachable : forall all frags seen l out seen' f,
-  XiDfs all frags seen l out seen' -> In f out -> XiReach all frags l f.
-Proof. intros all frags seen l out seen' f H. exact (xi_dfs_visits_reachable _ _ _ _ _ _ H f). Qed.
-Check C18_visited_are_reachable : forall all frags seen l out seen' f,
-  XiDfs all frags seen l out seen' -> In f out -> XiReach all frags l f.
-Print Assumptions C18_visited_are_reachable.
+(* The iterators visit exactly the reachable fields: f is yielded iff f is reachable from the operation's
+   selection set through sub-selections (all_fields only), inline fragments and spreads of defined fragments
+   (XiReach).  "Each named fragment once" is the definition of the walk XiDfs the iterators are equal to. *)
+Theorem C18_all_fields_exactly_reachable : forall d op l,
+  xi_all_fields d op = Some l -> forall f, In f l <-> XiReach true (xd_frags d) (xo_sels op) f.
+Proof. intros d op l. exact (xi_iter_exactly_reachable true d (xo_sels op) l). Qed.
+Check C18_all_fields_exactly_reachable : forall d op l,
+  xi_all_fields d op = Some l -> forall f, In f l <-> XiReach true (xd_frags d) (xo_sels op) f.
+Print Assumptions C18_all_fields_exactly_reachable.
+
+Theorem C18_root_fields_exactly_reachable : forall d op l,
+  xi_root_fields d op = Some l -> forall f, In f l <-> XiReach false (xd_frags d) (xo_sels op) f.
+Proof. intros d op l. exact (xi_iter_exactly_reachable false d (xo_sels op) l). Qed.
+Check C18_root_fields_exactly_reachable : forall d op l,
+  xi_root_fields d op = Some l -> forall f, In f l <-> XiReach false (xd_frags d) (xo_sels op) f.
+Print Assumptions C18_root_fields_exactly_reachable.
 
 (* ---- non-vacuity: a schema, a document with a cyclic spread, an undefined field and meta-fields *)
 Definition ex_Q : str := [81]. Definition ex_A : str := [65]. Definition ex_a : str := [97].
